@@ -45,15 +45,15 @@ REAL = ['glue.viewers.common.viewer.Viewer', 'glue.viewers.common.state', 'glue.
         'glue.core.data_combo_helper', 'glue.core.state_objects', 'glue.viewers.image.state', 'glue.viewers.{histogram,scatter,image,profile} (thorough tier)',
         'echo callback properties', 'glue.core.hub (weak listeners)', 'glue.core.state (restart)']
 STUB = ['application shell that keeps and saves the viewer list (modelled on glue-qt; glue-core has none)', 'matplotlib Agg canvas', 'GC schedule']
-ASSUMPTIONS = ['layers are not removed one by one by the user (viewer.remove_data removes a dataset with its subsets)', 'oracle only at quiescence', 'sampling, not proof']
+ASSUMPTIONS = ['a user may remove a dataset\'s own layer alone (its subset layers then stay until the subsets disappear); subset layers are not removed one by one', 'oracle only at quiescence', 'sampling, not proof']
 PROBES = ['viewer_before_data', 'subset_created_after_add', 'group_removed_with_viewer', 'data_removed_with_viewer', 'viewer_dropped_unclosed',
           'viewer_closed', 'picker_filter_flip', 'picker_no_choices', 'picker_component_removed', 'picker_data_removed', 'image_axis_set',
-          'image_reference_changed', 'image_reference_removed', 'restart_with_viewers', 'readd_in_delay_window', 'mpl_viewer', 'explicit_selection']
+          'image_reference_changed', 'image_reference_removed', 'restart_with_viewers', 'readd_in_delay_window', 'mpl_viewer', 'explicit_selection', 'data_layer_removed_alone']
 
 PROBES_THOROUGH_ONLY = ['mpl_viewer']
 
 WEIGHTS = {'new': 2, 'append': 3, 'remove': 1.5, 'new_group': 2.5, 'remove_group': 1.5, 'add_comp': 1.5, 'add_derived': 1, 'remove_comp': 1,
-           'rename': 0.7, 'reorder': 0.5, 'label': 0.5, 'v_new': 2, 'v_add': 4, 'v_add_subset': 1, 'v_remove': 1, 'v_close': 0.5, 'v_drop': 0.5,
+           'rename': 0.7, 'reorder': 0.5, 'label': 0.5, 'v_new': 2, 'v_add': 4, 'v_add_subset': 1, 'v_remove': 1, 'v_remove_data_layer': 1, 'v_close': 0.5, 'v_drop': 0.5,
            'h_new': 2, 'h_append': 3, 'h_remove': 1, 'h_filter': 2, 'h_select': 1.5, 'h_drop': 0.4, 'i_new': 1, 'i_add': 2, 'i_remove': 0.7,
            'i_set': 4, 'delay_open': 1, 'delay_close': 1.5, 'collect': 0.5, 'restart': 0.4}
 FLAGS = ['numeric', 'categorical', 'pixel_coord', 'world_coord', 'derived', 'none']
@@ -104,7 +104,7 @@ def generate(rng, cfg, guards):
             ops.append([k, r8(), rng.randrange(1000)])
         elif k == 'v_new':
             ops.append([k, rng.pick(['histogram', 'scatter', 'image', 'profile']) if mpl else 'generic'])
-        elif k in ('v_add', 'v_remove', 'v_add_subset'):
+        elif k in ('v_add', 'v_remove', 'v_add_subset', 'v_remove_data_layer'):
             ops.append([k, r8(), r8(), r8()])
         elif k == 'h_new':
             ops.append([k, rng.pick(['cid', 'cid', 'cid', 'manual', 'dc']), [rng.chance(0.7), rng.chance(0.7), rng.chance(0.3), rng.chance(0.3), rng.chance(0.7), rng.chance(0.2)],
@@ -380,6 +380,8 @@ def _execute(case, res, tmp):
                 ok = v['v'].add_data(d)
                 if ok and not any(d is g for g in v['given']):
                     v['given'].append(d)
+                if ok:
+                    v['orphans'] = [x for x in v.get('orphans', []) if x.data is not d]
                 if w.cms and id(d) in in_window['removed']:
                     v['ambiguous'].add(id(d))       # its removal message is still queued and will reach this viewer too
             elif k == 'v_add_subset':
@@ -399,6 +401,18 @@ def _execute(case, res, tmp):
                 d = v['given'][op[2] % len(v['given'])]
                 v['v'].remove_data(d)
                 v['given'] = [g for g in v['given'] if g is not d]
+            elif k == 'v_remove_data_layer':
+                if not viewers:
+                    continue
+                v = viewers[op[1] % len(viewers)]
+                if not v['given'] or v['kind'] != 'generic':
+                    continue
+                d = v['given'][op[2] % len(v['given'])]
+                # the user removes only the dataset's own layer: its subset layers stay until the subsets disappear
+                v['v'].remove_layer(d)
+                v['given'] = [g for g in v['given'] if g is not d]
+                v.setdefault('orphans', []).extend(d.subsets)
+                res.probe('data_layer_removed_alone')
             elif k == 'v_close':
                 if not viewers:
                     continue
@@ -533,6 +547,8 @@ def _execute(case, res, tmp):
                 if viewers:
                     res.probe('restart_with_viewers')
                 given = [[next(i for i, x in enumerate(dc) if x is g) for g in v['given'] if live(g)] for v in viewers]
+                orph = [[(next(i for i, x in enumerate(dc) if x is o.data), list(o.data.subsets).index(o)) for o in v.get('orphans', [])
+                         if live(o.data) and any(o is y for y in o.data.subsets)] for v in viewers]
                 path = w.save(include_data=True)
                 del viewers[:]
                 del helpers[:]
@@ -541,8 +557,9 @@ def _execute(case, res, tmp):
                 w.rebind(app)
                 res.fault('crash_restart')
                 dc = w.dc
-                for v, idxs in zip(app._viewers, given):
-                    viewers.append({'v': v, 'given': [dc[i] for i in idxs], 'ambiguous': set(), 'kind': 'generic'})
+                for v, idxs, os_ in zip(app._viewers, given, orph):
+                    viewers.append({'v': v, 'given': [dc[i] for i in idxs], 'ambiguous': set(), 'kind': 'generic',
+                                    'orphans': [dc[i].subsets[j] for i, j in os_]})
                 if len(app._viewers) != len(given):
                     raise Violation('C18/viewers-lost-in-restart', '%d viewers saved, %d restored' % (len(given), len(app._viewers)))
             else:
@@ -585,6 +602,8 @@ def check(w, viewers, helpers, images, res, k, mutated):
                 tgt = maybe if id(d) in v['ambiguous'] else exp
                 tgt.append(d)
                 tgt.extend(d.subsets)
+        v['orphans'] = [x for x in v.get('orphans', []) if any(x.data is d for d in live) and any(x is y for y in x.data.subsets)]
+        exp.extend(v['orphans'])
         got = [a.layer for a in v['v'].layers]
         got_state = [ls.layer for ls in v['v'].state.layers]
         res.nchecks += 1
